@@ -10,7 +10,6 @@ from typing import TYPE_CHECKING
 from numpy import concatenate, zeros
 
 # Local Imports
-from ...physics.maths import fpe_equals
 from ...physics.transforms.methods import ntw2eci
 from .discrete_state_change_event import DiscreteStateChangeEvent
 from .event_stack import EventRecord, EventStack
@@ -44,10 +43,10 @@ class ScheduledImpulse(DiscreteStateChangeEvent, metaclass=ABCMeta):
         See Also:
             :meth:`.DiscreteStateChangeEvent.__call__()`
         """
-        _val = time - self.time
-        if fpe_equals(_val, 0.0):
-            return 0.0
-        return _val
+        # [NOTE]: Must be the exact difference. Integration restarts one ULP after an applied impulse,
+        #   so snapping small differences to zero makes the restarted integration see the same
+        #   impulse again whenever that ULP is below the snapping threshold (first seconds of a run).
+        return time - self.time
 
 
 class ScheduledECIImpulse(ScheduledImpulse):
